@@ -48,3 +48,52 @@ Definition FieldsOk (m : msg) : Prop :=
    significant position *)
 Definition bit_of (bs : bytes) (i : nat) : bool :=
   N.testbit (nth (i / 8) bs 0) (N.of_nat (7 - i mod 8)).
+
+(* ---- boolean checkers of the specification (used as the oracle on the
+   implementation's output) ------------------------------------------------ *)
+
+Definition is_be32 (n : N) (bs : bytes) : bool :=
+  match bs with
+  | [a; b; c; d] => (a <? 256) && (b <? 256) && (c <? 256) && (d <? 256)
+                    && (n =? a * 2^24 + b * 2^16 + c * 2^8 + d)
+  | _ => false
+  end.
+
+Definition framedb (id : N) (payload : bytes) (out : bytes) : bool :=
+  match out with
+  | a :: b :: c :: d :: i :: rest =>
+      is_be32 (1 + len payload) [a; b; c; d] && (i =? id) && bytes_eqb rest payload
+  | _ => false
+  end.
+
+(* payload made of k big-endian words followed by a tail *)
+Definition words_then (ws : list N) (tail : bytes) (payload : bytes) : bool :=
+  (fix go (ws : list N) (p : bytes) : bool :=
+     match ws with
+     | [] => bytes_eqb p tail
+     | w :: ws' => match p with
+                   | a :: b :: c :: d :: p' => is_be32 w [a; b; c; d] && go ws' p'
+                   | _ => false
+                   end
+     end) ws payload.
+
+Definition payload_of (out : bytes) : bytes := skipn 5 out.
+
+Definition bep3b (m : msg) (out : bytes) : bool :=
+  match m with
+  | Handshake h p => bytes_eqb out ([19] ++ pstr ++ [0;0;0;0;0;0;0;0] ++ h ++ p)
+  | KeepAlive => bytes_eqb out [0;0;0;0]
+  | Choke => framedb 0 [] out
+  | Unchoke => framedb 1 [] out
+  | Interested => framedb 2 [] out
+  | NotInterested => framedb 3 [] out
+  | Have i => framedb 4 (payload_of out) out && words_then [i] [] (payload_of out)
+  | Bitfield bs => framedb 5 bs out
+  | Request i b l => framedb 6 (payload_of out) out && words_then [i; b; l] [] (payload_of out)
+  | Piece i b blk => framedb 7 (payload_of out) out && words_then [i; b] blk (payload_of out)
+  | Cancel i b l => framedb 8 (payload_of out) out && words_then [i; b; l] [] (payload_of out)
+  end.
+
+(* bit-mapping oracle for a whole vector *)
+Definition bits_okb (bs : bytes) (v : list bool) : bool :=
+  forallb (fun i => Bool.eqb (nth i v false) (bit_of bs i)) (seq 0 (length v)).
